@@ -65,6 +65,7 @@ def inputs(ctx, scale):
     strs += list(gen.exhaustive(parsecorr.ENV_ALPHA, ctx.pick(3, 4)))
     strs += list(gen.exhaustive(parsecorr.CORE_ALPHA, ctx.pick(4, 5), 4))
     strs += list(gen.random_strings(rg, parsecorr.ENV_ALPHA, ctx.pick(4000, 60000) * scale, 4, 9))
+    strs += gen.padded_env_docs()
     docs = gen.corpus()
     strs += docs
     for d in docs[:40]:
